@@ -2,7 +2,7 @@
 """Behaviour-preserving sweep only (the part 4/4b of the thorough self-test, without reverted fixes, seeds and mutants).
 
 usage: tools/preserve_sweep.py C07 [C08 ...] [--jobs N]
-For each property: the AST round trip and the 18 rewrites of armiverif/preserve.py are applied (in memory) to every file the
+For each property: the AST round trip and the rewrites of armiverif/preserve.py are applied (in memory) to every file the
 property's rules consulted on the clean tree; every variant must leave the check at exit 0.  Prints one line per variant that does
 not, exit 1 if any.  /repo is not touched."""
 import ast
